@@ -2,6 +2,9 @@ package depack
 
 import (
 	"fmt"
+	"runtime"
+	"strconv"
+	"strings"
 	"sync"
 	"sync/atomic"
 	"time"
@@ -19,21 +22,66 @@ import (
 var (
 	hookOnce                sync.Once
 	cntDemux, cntFlv, cntTs int64
+	hookMu                  sync.Mutex
+	hookGen                 int64               // generation = one harness run of a pipeline / demuxer
+	hookGoroutine           = map[int64]int64{} // goroutine id → generation in which it was first seen
 )
+
+func goid() int64 {
+	var buf [64]byte
+	n := runtime.Stack(buf[:], false)
+	// "goroutine 123 [running]:"
+	f := strings.Fields(string(buf[:n]))
+	if len(f) >= 2 {
+		id, _ := strconv.ParseInt(f[1], 10, 64)
+		return id
+	}
+	return -1
+}
+
+// newGeneration starts a run: worker goroutines of earlier runs (they may still pass a schedule
+// point while they wind down after Close) no longer count.
+func newGeneration() {
+	hookMu.Lock()
+	hookGen++
+	atomic.StoreInt64(&cntDemux, 0)
+	atomic.StoreInt64(&cntFlv, 0)
+	atomic.StoreInt64(&cntTs, 0)
+	hookMu.Unlock()
+}
 
 func installHooks() {
 	hookOnce.Do(func() {
 		verifhook.Set(func(point string, id uint32) {
+			var c *int64
 			switch point {
 			case "rtpdemuxer.beforePop":
-				atomic.AddInt64(&cntDemux, 1)
+				c = &cntDemux
 			case "flvmuxer.beforePop":
-				atomic.AddInt64(&cntFlv, 1)
+				c = &cntFlv
 			case "tsmuxer.beforePop":
-				atomic.AddInt64(&cntTs, 1)
+				c = &cntTs
+			default:
+				return
+			}
+			g := goid()
+			hookMu.Lock()
+			gen, seen := hookGoroutine[g]
+			if !seen {
+				gen = hookGen
+				hookGoroutine[g] = gen
+				if len(hookGoroutine) > 100000 {
+					hookGoroutine = map[int64]int64{g: gen}
+				}
+			}
+			cur := hookGen
+			hookMu.Unlock()
+			if gen == cur {
+				atomic.AddInt64(c, 1)
 			}
 		})
 	})
+	newGeneration()
 }
 
 // waitFor waits until the counter reached want or the worker logged its panic.
